@@ -495,6 +495,8 @@ pub fn run(ctx: &mut Ctx) {
             ctx.sample(json!(format!("{c:?}")));
         }
     }
+    // proposals of external senders and new members (checks/c10x.rs)
+    super::c10x::run(ctx);
 }
 
 pub fn replay(ctx: &mut Ctx, path: &[usize]) {
